@@ -84,4 +84,9 @@ TEXT.update({
   note="Partial: totality proved for Validate only; the rest is differential/robustness testing with panic and hang detection.",
  ),
 })
+TEXT.update({
+ "C04": dict(level="PENDING", note=""),
+ "C09": dict(level="PENDING", note=""),
+ "C16": dict(level="PENDING", note=""),
+})
 PENDING = {}
